@@ -62,6 +62,8 @@ type CaseFile struct {
 	Exp   json.RawMessage `json:"exp,omitempty"`
 	// C11: also run the history route (real install, then upgrades that carry / reuse / reset the values)
 	Hist bool `json:"hist,omitempty"`
+	// C14 history route: which first revision(s): "skipinstall" | "laxinstall" | "" = both
+	HistFirst string `json:"histfirst,omitempty"`
 	// C14: also run the operations through pkg/cmd; CliFlag = the one extra flag tried alone on this case
 	Cli     bool   `json:"cli,omitempty"`
 	CliFlag string `json:"cliflag,omitempty"`
